@@ -146,6 +146,15 @@ def one_config(chk, name, cname, det, psname, mindet, N, seed):
     chk.count(key=name + "/n_inputs")
     if counts != {tuple(s.s): n for s, n in dict(r1b).items()}:
         bad += chk.violation("seed_repro", "%s: sample_N_inputs with the same seed gave two different results" % name, script, sig=dict(hz, call="Sampler.sample_N_inputs"))
+    # the seeds at the edge of the domain reproduce too (0 is a seed, not "no seed")
+    for edge_seed in (0, 2 ** 32 - 1):
+        ra = sampler.sample_N_inputs(2000, post_select=ps_obj(psname), min_detection=mindet, seed=edge_seed)
+        import random as _r
+        _r.random(); np.random.random()          # other users of the global generators in between
+        rb = sampler.sample_N_inputs(2000, post_select=ps_obj(psname), min_detection=mindet, seed=edge_seed)
+        if dict(ra) != dict(rb):
+            bad += chk.violation("seed_repro", "%s: sample_N_inputs with seed %d gave two different results" % (name, edge_seed), script, sig=dict(hz, call="Sampler.sample_N_inputs"))
+            break
     for s in counts:
         if s not in exact:
             bad += chk.violation("emitted_state_not_allowed", "%s: sample_N_inputs returned %s, which no branch of the specification emits "
